@@ -431,6 +431,13 @@ def b_vars(I, a, k):
     raise Unsupported("vars()")
 
 
+def i_total_seconds(I, a, k):
+    # durations are modelled as integers (assumed_stdlib: timedelta); total_seconds() is that number as a real
+    from .values import SFloat
+
+    return SFloat(z3.ToReal(a[0].t) / 1000)
+
+
 # ============================================================================ methods of builtin types
 def method(I, obj: V, name: str) -> V:
     if isinstance(obj, (SList,)):
